@@ -26,7 +26,7 @@ THEOREMS = ["TLVerif.Props.C07." + t for t in [
     "transcode_tl2_json", "transcode_json_tl2", "transcode_without_tl2", "transcode_read_error", "transcode_tl1_of_tl2_origin",
     "result_args_from_request", "result_tl2_wrapper_roundtrip", "result_tl1_tl2_tl1_partial", "result_tl1_tl2_tl1_negzero_at",
     "result_tl1_json_tl1_partial", "json_roundtrips_at_bool", "result_tl1_json_tl1_bool",
-    "result_tl1_json_tl1_fails_at_neg_zero", "result_tl1_json_tl1_fails_at_nan_payload", "result_tl1_json_tl1_fails"]]
+    "result_tl1_json_tl1_neg_zero_roundtrips", "result_tl1_json_tl1_fails_at_nan_payload", "result_tl1_json_tl1_fails"]]
 
 KEY_L2 = "C07:L2:float-negative-zero-lost-by-result-transcoders"
 KEY_L3 = "C07:L3:nan-payload-lost-by-result-json-transcoders"
